@@ -339,6 +339,8 @@ inductive RStep where
   | update            -- the program updates some metric
   | cancel            -- `shutdown()` cancels the token
   | task (fired : Bool)
+  | cloneHandle       -- `MetricReporter::clone()` ("may be freely cloned")
+  | dropHandle        -- a `MetricReporter` handle is dropped
   deriving DecidableEq, Repr
 
 /-- what an observer sees, in order: updates and published readouts -/
@@ -350,6 +352,8 @@ inductive Mark where
 structure RState where
   pc : Pc
   cancelled : Bool
+  /-- number of live `MetricReporter` handles: bookkeeping only, no transition of the code reads it -/
+  handles : Nat
   deriving DecidableEq, Repr
 
 /-- the code -/
@@ -362,6 +366,14 @@ def stepOrig (s : RState) : RStep → RState × List Mark
     | .fin => ({ s with pc := .done }, [.pub])
     | .head => ({ s with pc := .sel }, [])     -- not a state of the code; harmless
     | .done => (s, [])
+  | .cloneHandle => ({ s with handles := s.handles + 1 }, [])
+  | .dropHandle => ({ s with handles := s.handles - 1 }, [])    -- `MetricReporter` has no `Drop`: nothing else happens
+
+/-- a variant in which dropping a handle cancels the shared token (`impl Drop for MetricReporter { cancel }` — NOT the
+code; kept for the witness in `Props/C20.lean`) -/
+def stepDropCancels (s : RState) : RStep → RState × List Mark
+  | .dropHandle => ({ s with handles := s.handles - 1, cancelled := true }, [])
+  | e => stepOrig s e
 
 /-- the "deduplicated" loop `while !shutdown.is_cancelled() { select(..).await; publish }` without the trailing
 publish (NOT the code; kept for the witness in `Props/C20.lean`) -/
@@ -374,6 +386,8 @@ def stepDedup (s : RState) : RStep → RState × List Mark
     | .sel => if fired || s.cancelled then ({ s with pc := .head }, [.pub]) else (s, [])
     | .fin => ({ s with pc := .done }, [])
     | .done => (s, [])
+  | .cloneHandle => ({ s with handles := s.handles + 1 }, [])
+  | .dropHandle => ({ s with handles := s.handles - 1 }, [])
 
 def runR (step : RState → RStep → RState × List Mark) (s : RState) : List RStep → RState × List Mark
   | [] => (s, [])
@@ -382,7 +396,7 @@ def runR (step : RState → RStep → RState × List Mark) (s : RState) : List R
     let r2 := runR step r1.1 es
     (r2.1, r1.2 ++ r2.2)
 
-def initOrig : RState := { pc := .sel, cancelled := false }
-def initDedup : RState := { pc := .head, cancelled := false }
+def initOrig : RState := { pc := .sel, cancelled := false, handles := 1 }
+def initDedup : RState := { pc := .head, cancelled := false, handles := 1 }
 
 end Reporter
